@@ -22,6 +22,16 @@ EXEMPT = r"Parser::(check_terminator|match_arg_error)$"
 LOSSY = r"(to_string_lossy|OsStr::to_str|to_lowercase|to_uppercase|str::trim|str::replace|to_ascii)"
 
 
+def global_setters(fx, res, rule, names):
+    """The Command setters documented as applying to the whole tree store a GLOBAL setting (global_setting / unset_global_setting):
+    a plain setting would stop at the command it is called on."""
+    for nm in names:
+        b = fx.body("clap_builder::builder::command::Command::" + nm)
+        used = sorted(set(c.callee_q.rsplit("::", 1)[1] for c in b.calls() if c.callee_q and re.search(r"Command::(un)?set(_global)?_setting$|Command::(global_)?setting$", c.callee_q)))
+        res.check(used == ["global_setting", "unset_global_setting"], rule, "global-setter|" + nm, b.where(), "%s sets/unsets a global setting" % nm,
+                  "Command::%s uses %s: the setting no longer reaches subcommands although it is documented to" % (nm, used))
+
+
 def run(ctx):
     fx, res = ctx.fx, ctx.res
     pp = fx.body("clap_builder::parser::parser::Parser::parse")
@@ -188,10 +198,7 @@ def run(ctx):
                   "trailing_idx = number of values already pending, only when trailing_values", "trailing_idx recorded as %s under %s" % (expr(pv, c.args[1])[:60], guard_strs(pv, c.bb)))
 
     # ---- R5.8 the trailing exemption holds at every level: the setting is global and global settings are handed down at every depth
-    dd = fx.body("clap_builder::builder::command::Command::dont_delimit_trailing_values")
-    used = sorted(set(c.callee_q.rsplit("::", 1)[1] for c in dd.calls() if c.callee_q and "Command::" in c.callee_q))
-    res.check(used == ["global_setting", "unset_global_setting"], "R5.8", "dont-delimit-is-global", dd.where(), "dont_delimit_trailing_values sets/unsets a GLOBAL setting",
-              "dont_delimit_trailing_values uses %s: the setting is documented to propagate to all subcommands, with a local setting the tail given to a subcommand is split at the delimiter" % used)
+    global_setters(fx, res, "R5.8", ["dont_delimit_trailing_values"])
     pg = fx.body("clap_builder::builder::command::Command::_propagate_subcommand")
     wrote = {}
     for f in ("settings", "g_settings"):
